@@ -21,25 +21,25 @@ theorem safe_compileDistribute {dev : Device} {labs₀ : List Labware} {I} (hwf 
   | error e =>
     unfold compileDistribute; simp only [hvr, hvolM, if_false, hps, exceptMicros]; exact single_neutral _ rfl
   | ok ps =>
-  by_cases hnd : a.dstWells.flattenF.Nodup
+  by_cases hndw : a.dstWells.flattenF.Nodup
   swap
   · unfold compileDistribute
-    simp only [hvr, hvolM, if_false, hps, exceptMicros, hnd, not_false_eq_true, if_true]
+    simp only [hvr, hvolM, if_false, hps, exceptMicros, hndw, not_false_eq_true, if_true]
     exact single_neutral _ rfl
   cases hhead : (ps.mergeSort (· ≤ ·)).head? with
   | none =>
-    unfold compileDistribute; simp only [hvr, hvolM, if_false, hps, exceptMicros, hnd, not_true_eq_false, hhead]; exact single_neutral _ rfl
+    unfold compileDistribute; simp only [hvr, hvolM, if_false, hps, exceptMicros, hndw, not_true_eq_false, hhead]; exact single_neutral _ rfl
   | some s =>
   cases hlast : (ps.mergeSort (· ≤ ·)).getLast? with
   | none =>
-    unfold compileDistribute; simp only [hvr, hvolM, if_false, hps, exceptMicros, hnd, not_true_eq_false, hhead, hlast]
+    unfold compileDistribute; simp only [hvr, hvolM, if_false, hps, exceptMicros, hndw, not_true_eq_false, hhead, hlast]
     exact single_neutral _ rfl
   | some e =>
   by_cases hc1 : a.srcCol < S.geom.cols
   swap
   · have hneg : ¬ a.srcCol < 0 := by omega
     unfold compileDistribute
-    simp only [hvr, hvolM, if_false, hps, exceptMicros, hnd, not_true_eq_false, hhead, hlast, hc0, hc1, hneg, and_false, false_and]
+    simp only [hvr, hvolM, if_false, hps, exceptMicros, hndw, not_true_eq_false, hhead, hlast, hc0, hc1, hneg, and_false, false_and]
     exact single_neutral _ rfl
   -- the main branch
   have heq : compileDistribute cfg S D a =
@@ -53,7 +53,7 @@ theorem safe_compileDistribute {dev : Device} {labs₀ : List Labware} {I} (hwf 
         ++ commentMicros (some a.label)
         ++ compileRD cfg (distRD S D a ps s e) := by
     unfold compileDistribute distRD
-    simp only [hvr, hvolM, if_false, hps, exceptMicros, hnd, not_true_eq_false, hhead, hlast, hc0, hc1, and_self, if_true]
+    simp only [hvr, hvolM, if_false, hps, exceptMicros, hndw, not_true_eq_false, hhead, hlast, hc0, hc1, and_self, if_true]
     congr 1; congr 1; congr 1; congr 1
     cases S.geom.resolveFlat (wellId 0 a.srcCol.toNat) <;> rfl
   rw [heq]
@@ -216,14 +216,25 @@ theorem safe_compileDistribute {dev : Device} {labs₀ : List Labware} {I} (hwf 
   have hrows : 0 < S0.geom.nRowIds := by
     have := (hgS0.trough vr hvr0).2
     simp only [Geom.nRowIds, hvr0]; omega
-  have hnd : ps.Nodup := hnodup ps (by rw [← hdev]; exact hps)
+  have hnd : ps.Nodup := by
+    rcases hnodup with hinj | hnd
+    · refine nodup_pos (dev := dev) (g := D.geom) hinj (by rw [← hdev]; exact hF) ?_ hndw
+      intro w' hw'
+      have hmem : D.geom.resolveFlat w' ∈ dws.map D.geom.resolveFlat := List.mem_map_of_mem hw'
+      rw [hjs] at hmem
+      obtain ⟨j, _, hj⟩ := List.mem_map.1 hmem
+      unfold Geom.resolveFlat at hj
+      cases hr : D.geom.resolve w' with
+      | none => rw [hr] at hj; cases hj
+      | some _ => rfl
+    · exact hnd ps (by rw [← hdev]; exact hps)
   have hv : 0 ≤ a.vol.q := not_lt.mp hv0
   have hps' : (dws.mapM fun w' => dev.pos D0.geom w') = .ok ps := by rw [hgD, ← hdev]; exact hps
   have hjs' : dws.map D0.geom.resolveFlat = js.map some := by rw [hgD]; exact hjs
   have hrm' : S0.removeStep i (a.vol.q * (ps.length : Rat)) = .ok S1 := by rw [← hnps]; exact hstep
   obtain ⟨st', Rs', Rd', hint, hstlabs, hRsM, hRdS, hRdV, hRdLen⟩ :=
     interp_rd (dev := dev) hM hI hwf hne hS0 hD0 c i hi
-      (by intro m hm; rw [hgS, hic]; exact hsrcok c hccols m (by rw [← hgS]; exact hm))
+      (by intro m hm; rw [hgS, hic]; exact hsrcok vr hvr c hccols m (by rw [← hgS]; exact hm))
       hrows hps' hjs' hnd hhead hlast a.vol hv hrm' haddC f
       (by rw [hfdef, hrdargs]; simp only [rdFields, distRD]; exact hnS.symm)
       (by rw [hfdef, hrdargs]; simp only [rdFields, distRD]; exact hnD.symm)
